@@ -33,6 +33,7 @@ type Op struct {
 type Unit struct {
 	Ops []Op   `json:"ops"`
 	Tx  string `json:"tx"`            // "", "commit", "rollback"
+	Opt string `json:"opt,omitempty"` // transaction options: "", "serializable", "readonly", "serializable-readonly"
 	Ctx string `json:"ctx,omitempty"` // mixed mode: "G" inside the global transaction, "P" plain, "GP" prepared inside / executed after
 }
 
@@ -48,7 +49,11 @@ func (u Unit) Name() string {
 	if u.Tx == "" {
 		return pre + strings.Join(n, ",")
 	}
-	return pre + "tx[" + strings.Join(n, ",") + "]" + u.Tx
+	opt := ""
+	if u.Opt != "" {
+		opt = "{" + u.Opt + "}"
+	}
+	return pre + "tx" + opt + "[" + strings.Join(n, ",") + "]" + u.Tx
 }
 
 type Case struct {
@@ -139,6 +144,14 @@ func units(thorough bool) []Unit {
 			Unit{Ops: pick("ins-dup", "upd-bound"), Tx: end},
 			Unit{Ops: pick("prep-upd", "prep-q"), Tx: end},
 			Unit{Ops: pick("del-bound", "ins-auto"), Tx: end},
+		)
+	}
+	// explicit transactions opened with options: the database must see the same options
+	for _, opt := range []string{"serializable", "readonly", "serializable-readonly"} {
+		out = append(out,
+			Unit{Ops: pick("q-all"), Tx: "commit", Opt: opt},
+			Unit{Ops: pick("upd-bound"), Tx: "commit", Opt: opt},
+			Unit{Ops: pick("upd-bound", "q-all"), Tx: "rollback", Opt: opt},
 		)
 	}
 	return out
@@ -352,7 +365,16 @@ func runUnit(ctx context.Context, db handle, u Unit) []OpResult {
 		}
 		return out
 	}
-	tx, err := db.BeginTx(ctx, nil)
+	var topt *sql.TxOptions
+	switch u.Opt {
+	case "serializable":
+		topt = &sql.TxOptions{Isolation: sql.LevelSerializable}
+	case "readonly":
+		topt = &sql.TxOptions{ReadOnly: true}
+	case "serializable-readonly":
+		topt = &sql.TxOptions{Isolation: sql.LevelSerializable, ReadOnly: true}
+	}
+	tx, err := db.BeginTx(ctx, topt)
 	if err != nil {
 		return append(out, OpResult{Err: "begin: " + err.Error()})
 	}
